@@ -561,6 +561,9 @@ def check(run):
     r4_force_record_retry_restore(run)
     r5_either_or(run)
     _as(run, "R6", c01.r8_handler_inventory, "R8")
+    # "every signature that is present verifies": the verdict of the
+    # verifier, not its mere return, marks a signature as verified (C01.R7)
+    _as(run, "R7", c01.r7_response_path, "R7")
 
 
 def _as(run, rule, fn, orig):
